@@ -40,6 +40,26 @@ class Ref:
         return f"Ref({self.kind}#{self.oid})"
 
 
+class ZS:
+    """Wrapper for an uninterpreted z3 sort used as an array element sort (safe to compare with strings)."""
+    __slots__ = ("z3",)
+
+    def __init__(self, srt):
+        self.z3 = srt
+
+    def __eq__(self, other):
+        return isinstance(other, ZS) and self.z3.eq(other.z3)
+
+    def __ne__(self, other):
+        return not self.__eq__(other)
+
+    def __hash__(self):
+        return hash(str(self.z3))
+
+    def __repr__(self):
+        return f"ZS({self.z3})"
+
+
 class Arr:
     """Immutable symbolic n-d array value: shape (tuple of int/z3 Int) and element function."""
     __slots__ = ("shape", "fn", "sort", "prov", "uid")
@@ -47,7 +67,9 @@ class Arr:
     def __init__(self, shape, fn, sort="real", prov=None):
         self.shape = tuple(shape)
         self.fn = fn
-        self.sort = sort  # 'real' | 'int' | 'bool' | z3 SortRef
+        if isinstance(sort, z3.SortRef):
+            sort = ZS(sort)
+        self.sort = sort  # 'real' | 'int' | 'bool' | ZS(uninterpreted sort)
         self.prov = prov  # provenance for T-SUM linearity lemmas
         self.uid = next(_fresh)
 
@@ -143,18 +165,26 @@ def is_bool_like(v):
 
 def fresh_scalar(kind, base="v"):
     n = fresh_name(base)
+    if isinstance(kind, (ZS, z3.SortRef)):
+        return z3.Const(n, kind.z3 if isinstance(kind, ZS) else kind)
     if kind == "real":
         return z3.Real(n)
     if kind == "int":
         return z3.Int(n)
     if kind == "bool":
         return z3.Bool(n)
+    if isinstance(kind, ZS):
+        return z3.Const(n, kind.z3)
     if isinstance(kind, z3.SortRef):
         return z3.Const(n, kind)
     raise Unsupported(f"fresh scalar of kind {kind}")
 
 
 def z3sort(kind):
+    if isinstance(kind, ZS):
+        return kind.z3
+    if isinstance(kind, z3.SortRef):
+        return kind
     if kind == "real":
         return z3.RealSort()
     if kind == "int":
@@ -177,5 +207,5 @@ def kind_of(v):
     if is_real_like(v):
         return "real"
     if is_sym(v):
-        return v.sort()
+        return ZS(v.sort())
     return None
